@@ -33,7 +33,7 @@ class DirectEffect(ModelFeature):
                 all_modes = tuple(set([a for a in self.modes if a not in other.modes]))
 
             if len(all_modes) == 0:
-                all_modes = None
+                return None
 
             return DirectEffect(all_modes)
         else:
